@@ -133,6 +133,10 @@ enum E {
     Bin(Box<E>, Op, Box<E>),
 }
 
+fn is_local(name: &str) -> bool {
+    name.chars().next().is_some_and(|c| c.is_lowercase())
+}
+
 fn bin(l: E, op: Op, r: E) -> E {
     E::Bin(Box::new(l), op, Box::new(r))
 }
@@ -190,7 +194,8 @@ impl E {
     }
     fn has_var(&self) -> bool {
         match self {
-            E::Var(..) => true,
+            // upper-case names are module-level consts (CI, CJ, CN, CF, CG), not variables
+            E::Var(n, _) => is_local(n),
             E::Bin(l, _, r) => l.has_var() || r.has_var(),
             E::Neg(x) | E::Paren(x) => x.has_var(),
             _ => false,
@@ -209,6 +214,8 @@ impl E {
         match self {
             E::Int(_) => "intlit".into(),
             E::Float(_) => "floatlit".into(),
+            E::Var(n, K::Int) if !is_local(n) => if *n == "CN" { "negintconst".into() } else { "intconst".into() },
+            E::Var(n, _) if !is_local(n) => "floatconst".into(),
             E::Var(_, K::Int) => "intvar".into(),
             E::Var(_, _) => "floatvar".into(),
             E::Neg(x) => format!("neg-{}", x.form()),
@@ -286,6 +293,11 @@ fn eval(e: &E, pil: bool) -> Option<V> {
         E::Int(n) => V::I(*n),
         E::Float(f) => V::F(*f),
         E::Var(n, _) => match *n {
+            "CI" => V::I(3),
+            "CJ" => V::I(2),
+            "CN" => V::I(-2),
+            "CF" => V::F(2.5),
+            "CG" => V::F(1.5),
             "a" => V::I(VA),
             "b" => V::I(VB),
             "x" => V::F(VX),
@@ -475,6 +487,48 @@ fn nested_deeper() -> Vec<E> {
     v
 }
 
+/// Operators over *references to module-level consts* (int const, float const, negative-valued const, negated const
+/// reference) and literals. These are const-evaluable, so they also occupy the `const` binding position, where the
+/// const evaluator - a separate consumer of the numeric policy - decides the kind; a const name is never "an int
+/// literal" for the `**` rule. (Parenthesised operands are not const-evaluable and are covered with variables.)
+fn enumerate_const_refs() -> Vec<E> {
+    let c = |n: &'static str, k: K| E::Var(n, k);
+    let neg = |e: E| E::Neg(Box::new(e));
+    let lefts = vec![c("CI", K::Int), c("CF", K::Float), c("CN", K::Int), E::Int(9), E::Float(9.5), neg(c("CI", K::Int)), neg(c("CN", K::Int))];
+    let rights = vec![
+        c("CJ", K::Int),
+        c("CG", K::Float),
+        c("CN", K::Int),
+        neg(c("CN", K::Int)),
+        neg(c("CJ", K::Int)),
+        neg(c("CG", K::Float)),
+        E::Int(4),
+        E::Int(0),
+        neg(E::Int(2)),
+        E::Float(1.5),
+    ];
+    let mut out = Vec::new();
+    for op in ALL_OPS {
+        for l in &lefts {
+            // `-C ** e` would need a grouping parenthesis, which a const initializer may not contain
+            if op == Op::Pow && matches!(l, E::Neg(_)) {
+                continue;
+            }
+            for r in &rights {
+                let has_const = |e: &E| matches!(e, E::Var(..)) || matches!(e, E::Neg(x) if matches!(**x, E::Var(..)));
+                if !has_const(l) && !has_const(r) {
+                    continue;
+                }
+                if matches!(r, E::Int(0)) && matches!(op, Op::Div | Op::FloorDiv | Op::Mod) {
+                    continue;
+                }
+                out.push(bin(l.clone(), op, r.clone()));
+            }
+        }
+    }
+    out
+}
+
 /// All probes for a nesting depth. depth 0: leaves only; 1: + `nested_small`; 2: + nested_full + nested_deeper.
 fn enumerate(depth: usize) -> Vec<E> {
     let mut lefts = left_leaves();
@@ -532,14 +586,14 @@ impl Pos {
 fn applicable(e: &E, pos: Pos) -> bool {
     match pos {
         // `x op= R` exists for + - * / // % and needs a variable on the left
-        Pos::Compound => matches!(e, E::Bin(l, op, _) if matches!(**l, E::Var(..)) && !op.is_cmp() && *op != Op::Pow),
+        Pos::Compound => matches!(e, E::Bin(l, op, _) if matches!(**l, E::Var(n, _) if is_local(n)) && !op.is_cmp() && *op != Op::Pow),
         // const initializers: literals only, and parentheses are not const-evaluable
         Pos::Const => !e.has_var() && !e.has_paren(),
         _ => true,
     }
 }
 
-const PRELUDE: &str = "model MI:\n    v: int\n\nmodel MF:\n    v: float\n\nmodel MB:\n    v: bool\n\n\
+const PRELUDE: &str = "const CI: int = 3\nconst CJ: int = 2\nconst CN: int = -2\nconst CF: float = 2.5\nconst CG: float = 1.5\n\nmodel MI:\n    v: int\n\nmodel MF:\n    v: float\n\nmodel MB:\n    v: bool\n\n\
 def want_int(i: int, v: int) -> None:\n    print(i)\n    print(v)\n\n\
 def want_float(i: int, v: float) -> None:\n    print(i)\n    print(v)\n\n\
 def want_bool(i: int, v: bool) -> None:\n    print(i)\n    print(v)\n\n";
@@ -851,6 +905,31 @@ fn judge_static(e: &E, pos: Pos, pil: bool, arg_unchecked_known: bool) -> (Vec<F
                 what: format!("`{}` bound to `{}`: expected a type-mismatch diagnostic, got {:?}", e.text(), other.ann(), o),
                 replay: replay(&src, "reject"),
             }),
+        }
+    }
+    // phase agreement: the const evaluator (const position) and the ordinary checker (the same expression bound by an
+    // annotated let in a function body) must give the same accept/reject verdict for every annotation
+    if pos == Pos::Const {
+        for ann in [K::Int, K::Float, K::Bool] {
+            let (cb, ct) = binding(e, Pos::Const, ann, 1);
+            let csrc = program(&[(cb, ct)]);
+            let (lb, lt) = binding(e, Pos::Let, ann, 1);
+            let (vc, vl) = (check_src(&csrc), check_src(&program(&[(lb, lt)])));
+            if (vc == Verdict::Accept) != (vl == Verdict::Accept) {
+                fails.push(Fail {
+                    key: format!("phase:const-eval-vs-checker:{s}"),
+                    what: format!(
+                        "`{}` annotated `{}`: as a const initializer {:?}, as a let in a function body {:?} (documented kind {:?})",
+                        e.text(),
+                        ann.ann(),
+                        vc,
+                        vl,
+                        t
+                    ),
+                    replay: replay(&csrc, if vl == Verdict::Accept { "accept" } else { "reject" }),
+                });
+            }
+            tags.push("phase-agreement");
         }
     }
     (fails, tags)
@@ -1360,7 +1439,10 @@ fn real_main() {
 
     // ---- enumeration
     let depth = args.tier.pick(1usize, 2usize);
-    let exprs = enumerate(depth);
+    let mut exprs = enumerate(depth);
+    let n_plain = exprs.len();
+    exprs.extend(enumerate_const_refs());
+    ev.set("enumerated_const_reference_expressions", json!(exprs.len() - n_plain));
     ev.set("enumerated_depth", json!(depth));
     ev.set("enumerated_expressions", json!(exprs.len()));
     let dump = std::env::var("C07_DUMP").is_ok();
